@@ -915,6 +915,12 @@ def _interp_stmt(repo, cls, fn, st, ctx, res, gens):
             if isinstance(g0.iter, ast.Call) and call_name(g0.iter) == "range" and len(g0.iter.args) == 1 and _is_block_count(g0.iter.args[0], ctx):
                 ctx["env"][tgt.id] = Opaque("blocklist")
                 return
+        if isinstance(tgt, ast.Name) and isinstance(st.value, ast.Call) and call_name(st.value) == "partial" and st.value.args \
+                and isinstance(st.value.args[0], ast.Attribute) and dotted(st.value.args[0].value) == "self" and st.value.args[0].attr in (GEN_TWO, GEN_ONE):
+            # functools.partial(self.<generator>, ...): the generator with some of its arguments already given
+            ctx["partials"] = dict(ctx.get("partials", {}))
+            ctx["partials"][tgt.id] = (st.value.args[0], [asub(a, ctx) for a in st.value.args[1:]], [(k.arg, asub(k.value, ctx)) for k in st.value.keywords])
+            return
         if isinstance(tgt, ast.Name) and not ctx["loops"] and _is_empty_list_expr(st.value) and _feeds_sink(fn, tgt.id):
             # a local list that collects constraints / LMIs and is poured into a sink later: appends to it are emissions kept aside
             ctx.setdefault("locallists", {})[tgt.id] = {"kind": None, "pending": HookResult()}
@@ -958,6 +964,15 @@ def _interp_stmt(repo, cls, fn, st, ctx, res, gens):
         recv = dotted(call.func.value) if isinstance(call.func, ast.Attribute) else None
         if name in (GEN_TWO, GEN_ONE) and recv == "self":
             _generator_call(repo, cls, fn, call, ctx, res, gens, where)
+            return
+        if isinstance(call.func, ast.Name) and call.func.id in ctx.get("partials", {}):
+            f0, pargs, pkws = ctx["partials"][call.func.id]
+            if any(k.arg is None for k in call.keywords) or any(k.arg in dict(pkws) for k in call.keywords if False):
+                raise AnalysisError("%s: **kwargs in a partial generator call (%s)" % (cls.name, where))
+            later = {k.arg for k in call.keywords}
+            full = ast.copy_location(ast.Call(func=clone(f0), args=[clone(a) for a in pargs] + list(call.args),
+                                              keywords=[ast.keyword(arg=k0, value=clone(v0)) for k0, v0 in pkws if k0 not in later] + list(call.keywords)), call)
+            _generator_call(repo, cls, fn, full, ctx, res, gens, where)
             return
         if name == "append" and recv == "self.list_of_class_constraints":
             _direct_scalar(cls, fn, st, call, ctx, res, where)
